@@ -512,51 +512,76 @@ fn merge_laws<I: Reg>(p: SetSketchParams, pname: &str) -> (u64, Option<(String, 
     (total, bad)
 }
 
-/// merge between different parameters must be refused and leave the receiver unchanged
+/// merge between different parameters must be refused and leave the receiver unchanged - in what it shows right away
+/// and in what it does with the rest of its stream (compared with a sketcher that never saw the refused merge)
 fn refusal<I: Reg>() -> (u64, Vec<(String, String, Value)>) {
-    let base = (1.001f64, 16u64, 20.0f64, 65534u64);
-    let mut variants: Vec<(&str, (f64, u64, f64, u64))> = Vec::new();
-    for db in [1e-6, 1e-3, 0.2, 0.999] {
-        variants.push(("b", (base.0 * (1. + db), base.1, base.2, base.3)));
-    }
-    for m in [1u64, 15, 17, 32] {
-        variants.push(("m", (base.0, m, base.2, base.3)));
-    }
-    for da in [1e-6, 1e-3, 0.5, -0.5] {
-        variants.push(("a", (base.0, base.1, base.2 * (1. + da), base.3)));
-    }
-    for q in [65533u64, 65535, 62, 3] {
-        variants.push(("q", (base.0, base.1, base.2, q)));
-    }
+    let ulps = |x: f64, k: i64| f64::from_bits((x.to_bits() as i64 + k) as u64);
     let mut bad = Vec::new();
     let mut n = 0;
-    for (field, v) in variants {
-        for swap in [false, true] {
-            n += 1;
-            let (pr, po) = if swap { (v, base) } else { (base, v) };
-            let r = guarded_mut(|| {
-                let mut recv = new_ss::<I>(SetSketchParams::new(pr.0, pr.1, pr.2, pr.3));
-                for x in 0u64..50 {
-                    recv.sketch(&x).unwrap();
-                }
-                let mut other = new_ss::<I>(SetSketchParams::new(po.0, po.1, po.2, po.3));
-                for x in 40u64..4000 {
-                    other.sketch(&x).unwrap();
-                }
-                let before = (sig_of(&recv), recv.get_nb_overflow(), recv.get_low_sketch(), recv.get_cardinal_stats().0.to_bits());
-                let res = recv.merge(&other);
-                let after = (sig_of(&recv), recv.get_nb_overflow(), recv.get_low_sketch(), recv.get_cardinal_stats().0.to_bits());
-                (res.is_err(), before == after)
-            });
-            let case = json!({"kind": "refusal", "field": field, "receiver": [pr.0, pr.1 as f64, pr.2, pr.3 as f64], "other": [po.0, po.1 as f64, po.2, po.3 as f64]});
-            match r {
-                Err(p) => bad.push((format!("refusal-panic:{}", field), format!("merge between sketchers differing in {} ({:?} vs {:?}) panics: {}", field, pr, po, p), case)),
-                Ok((refused, unchanged)) => {
-                    if !refused {
-                        bad.push((format!("merge-accepted:{}", field), format!("merge between sketchers differing in {} ({:?} vs {:?}) is accepted", field, pr, po), case.clone()));
+    for base in [(1.001f64, 16u64, 20.0f64, 65534u64), (2.0, 16, 1e6, 62)] {
+        let mut variants: Vec<(&str, (f64, u64, f64, u64))> = Vec::new();
+        let sgn = if base.0 >= 2.0 { -1.0 } else { 1.0 }; // b stays in (1,2]
+        for db in [1e-12, 1e-9, 1e-8, 1e-6, 1e-3, 0.2, 0.499] {
+            variants.push(("b", (base.0 * (1. + sgn * db), base.1, base.2, base.3)));
+        }
+        // a few units in the last place: beyond rounding noise (relative difference >= 4 epsilon), far below 1e-12
+        for k in [32i64, 1 << 10, 1 << 20] {
+            variants.push(("b", (ulps(base.0, sgn as i64 * k), base.1, base.2, base.3)));
+            variants.push(("a", (base.0, base.1, ulps(base.2, k), base.3)));
+        }
+        for m in [1u64, 15, 17, 32] {
+            variants.push(("m", (base.0, m, base.2, base.3)));
+        }
+        for da in [1e-12, 1e-9, 1e-8, 1e-6, 1e-3, 0.5, -0.5, 1e5] {
+            variants.push(("a", (base.0, base.1, base.2 * (1. + da), base.3)));
+        }
+        for q in [base.3 - 1, base.3 + 1, if base.3 > 100 { 62 } else { 65534 }, 3] {
+            variants.push(("q", (base.0, base.1, base.2, q)));
+        }
+        for (field, v) in variants {
+            for swap in [false, true] {
+                n += 1;
+                let (pr, po) = if swap { (v, base) } else { (base, v) };
+                let r = guarded_mut(|| {
+                    let mut recv = new_ss::<I>(SetSketchParams::new(pr.0, pr.1, pr.2, pr.3));
+                    let mut twin = new_ss::<I>(SetSketchParams::new(pr.0, pr.1, pr.2, pr.3));
+                    for x in 0u64..50 {
+                        recv.sketch(&x).unwrap();
+                        twin.sketch(&x).unwrap();
                     }
-                    if !unchanged {
-                        bad.push((format!("refused-merge-modified-receiver:{}", field), format!("merge between sketchers differing in {} ({:?} vs {:?}) changed the receiver", field, pr, po), case));
+                    let mut other = new_ss::<I>(SetSketchParams::new(po.0, po.1, po.2, po.3));
+                    for x in 40u64..4000 {
+                        other.sketch(&x).unwrap();
+                    }
+                    let before = (sig_of(&recv), recv.get_nb_overflow(), recv.get_low_sketch(), recv.get_cardinal_stats().0.to_bits());
+                    let res = recv.merge(&other);
+                    let after = (sig_of(&recv), recv.get_nb_overflow(), recv.get_low_sketch(), recv.get_cardinal_stats().0.to_bits());
+                    // the rest of the stream
+                    let mut same_future = true;
+                    for x in 50u64..400 {
+                        recv.sketch(&x).unwrap();
+                        twin.sketch(&x).unwrap();
+                        if x % 50 == 49 && (sig_of(&recv), recv.get_nb_overflow(), recv.get_low_sketch()) != (sig_of(&twin), twin.get_nb_overflow(), twin.get_low_sketch()) {
+                            same_future = false;
+                        }
+                    }
+                    (res.is_err(), before == after, same_future)
+                });
+                let case = json!({"kind": "refusal", "field": field, "receiver": [pr.0, pr.1 as f64, pr.2, pr.3 as f64], "other": [po.0, po.1 as f64, po.2, po.3 as f64]});
+                match r {
+                    Err(p) => bad.push((format!("refusal-panic:{}", field), format!("merge between sketchers differing in {} ({:?} vs {:?}) panics: {}", field, pr, po, p), case)),
+                    Ok((refused, unchanged, same_future)) => {
+                        if !refused {
+                            bad.push((format!("merge-accepted:{}", field), format!("merge between sketchers differing in {} ({:?} vs {:?}) is accepted", field, pr, po), case.clone()));
+                        } else if !unchanged {
+                            bad.push((format!("refused-merge-modified-receiver:{}", field), format!("merge between sketchers differing in {} ({:?} vs {:?}) changed the receiver", field, pr, po), case));
+                        } else if !same_future {
+                            bad.push((
+                                format!("refused-merge-modified-receiver:{}", field),
+                                format!("merge between sketchers differing in {} ({:?} vs {:?}) was refused and left the registers alone, but the receiver then sketches the rest of its stream differently from a sketcher that never saw the refused merge", field, pr, po),
+                                case,
+                            ));
+                        }
                     }
                 }
             }
@@ -689,7 +714,7 @@ pub fn run(ctx: &Ctx) -> i32 {
         "exhaustive": true,
         "evaluations": execs,
         "distinct_nontrivial": states,
-        "rule": "join: all non-empty subsets of a 10 (12) item alphabet (all orders for |S|<=4, four canonical orders above) against the position-wise min (SuperMinHash f32/f64, m in {1,2,5,16,(40)}, item-wise and through one slice call; also with the no-op hasher on an alphabet containing item 0) resp. max (SetSketcher u8/u16/u32, 5 (b,q) sets x 3-5 m) of the REAL single-item sketches, plus low_sketch <= min register; merge: ALL sequences up to depth 4 (5) over 18 ops (3 instances x {2 shared items, 1 own item, 1 overlapping burst} + 6 ordered merges) for 4 parameter sets x {u16,u8}, final state of every instance against a set model (merge = union), estimate monotone on the last op; commutativity/associativity/idempotence/merge=union/streaming-after-merge on all triples of a 16-set family incl. empty sets; refusal for 32 parameter pairs x {u16,u8 (overflowing)} registers differing in exactly one field (>=1e-6 relative) with receiver unchanged; distinct = distinct joined sketches",
+        "rule": "join: all non-empty subsets of a 10 (12) item alphabet (all orders for |S|<=4, four canonical orders above) against the position-wise min (SuperMinHash f32/f64, m in {1,2,5,16,(40)}, item-wise and through one slice call; also with the no-op hasher on an alphabet containing item 0) resp. max (SetSketcher u8/u16/u32, 5 (b,q) sets x 3-5 m) of the REAL single-item sketches, plus low_sketch <= min register; merge: ALL sequences up to depth 4 (5) over 18 ops (3 instances x {2 shared items, 1 own item, 1 overlapping burst} + 6 ordered merges) for 4 parameter sets x {u16,u8}, final state of every instance against a set model (merge = union), estimate monotone on the last op; commutativity/associativity/idempotence/merge=union/streaming-after-merge on all triples of a 16-set family incl. empty sets; refusal for 116 parameter pairs x {u16,u8 (overflowing)} registers differing in exactly one field (b or a by 32..2^20 ulp or 1e-12..1e5 relative - differences below 4 epsilon relative, which the code treats as rounding noise, are not judged; m; q), receiver unchanged at once and in how it sketches the rest of its stream (against a twin that never saw the refused merge); distinct = distinct joined sketches",
         "merge_sequences": nseq,
         "merge_depth": depth,
         "details": details,
@@ -698,7 +723,7 @@ pub fn run(ctx: &Ctx) -> i32 {
         "model_checking",
         coverage,
         vec![
-            "parameter differences below 1e-6 relative are not claimed to be 'different parameters' (the code accepts differences below machine epsilon)".into(),
+            "b or a differing by less than machine epsilon relative (one unit in the last place for b in (1,2)) is what the code treats as the same parameter; the check does not judge that band and demands refusal from 32 ulp / 1e-12 relative upwards".into(),
             "larger alphabets / deeper sequences behave like the explored ones".into(),
         ],
     )
